@@ -369,3 +369,39 @@ Proof.
     unfold macro_ok; cbn. split; [discriminate|]. split; [repeat constructor; right; reflexivity|reflexivity].
   - vm_compute. reflexivity.
 Qed.
+
+From Coq Require Import Lia.
+Open Scope Z_scope.
+(* ---------------------------------------------------------------- strengthening round 5
+   A macro WITH parameters replaces `KEY(<arguments>)`; Tokenizer.__end_macro hands the last token of the expansion
+   the end of the replaced bracket token (Token.end = Layout.tok_end).  Whatever the expansion is, the token that
+   follows is connected exactly when it starts at the end of the bracket's text, and for a bracket that contains a
+   newline that end is on a later line (so `(line, col + length)` is not it). *)
+Lemma end_macro_last_end :
+  forall toks e d, toks <> [] -> tok_end (last (end_macro toks e) d) = e.
+Proof.
+  induction toks as [|t r IH]; intros e d H; [congruence|].
+  destruct r as [|t' r']; [reflexivity|].
+  change (end_macro (t :: t' :: r') e) with (t :: end_macro (t' :: r') e).
+  specialize (IH e d).
+  remember (end_macro (t' :: r') e) as l eqn:E.
+  destruct l as [|t0 l]; [destruct r'; discriminate|].
+  change (last (t :: t0 :: l) d) with (last (t0 :: l) d).
+  apply IH. discriminate.
+Qed.
+
+Theorem C16_connected_after_replaced_bracket :
+  forall toks br cur d, toks <> [] ->
+    is_connected cur (last (end_macro toks (tok_end br)) d) = pos_eqb (tok_end br) (t_line cur, t_col cur).
+Proof. intros. unfold is_connected. rewrite end_macro_last_end; auto. Qed.
+Print Assumptions C16_connected_after_replaced_bracket.
+
+Theorem C16_multiline_bracket_end :
+  forall br, t_mend br = None -> is_paren_ty (t_ty br) = true -> 0 < count_nl (t_str br) ->
+    tok_end br = (t_line br + count_nl (t_str br), after_last_nl (t_str br) 0 + 1) /\
+    fst (tok_end br) <> t_line br.
+Proof.
+  intros br Hm Hp Hn. unfold tok_end. rewrite Hm.
+  destruct (t_ty br); try discriminate; apply Z.ltb_lt in Hn; rewrite Hn; simpl; split; auto; apply Z.ltb_lt in Hn; lia.
+Qed.
+Print Assumptions C16_multiline_bracket_end.
